@@ -142,14 +142,33 @@ pub struct Case<'a> {
 
 impl<'a> Case<'a> {
     pub fn op(&mut self, line: &str) -> String {
+        if line.starts_with("fdtabs add ") {
+            // the TOI flute reports becomes an input of the model (C15 owns its prediction): run first, then write the line
+            let mut o = Oracle::default();
+            let r = self.e.exec(line, &mut o);
+            let (full, obs) = match r.strip_prefix("ok ") {
+                Some(toi) => (format!("{} {}", line, toi), "ok".to_string()),
+                None => (format!("{} ~", line), r.clone()),
+            };
+            self.ctx.op(&full, &obs);
+            for (c, d) in o.fails {
+                self.ctx.oracle_fail(&c, &d);
+            }
+            return r;
+        }
         self.ctx.step(self.e, line)
     }
 
     /// explicit publish; the op line carries `X` when `FileDesc::new` refuses the FDT object (library-determined length)
     pub fn publish(&mut self) -> String {
-        let fits = self.e.admits_now(self.now);
-        let line = if fits { format!("fdtabs pub {}", self.now) } else { format!("fdtabs pub {} X", self.now) };
-        let r = self.op(&line);
+        // run first: whether publish() is refused is observed, not predicted (hint `X`)
+        let mut o = Oracle::default();
+        let r = self.e.exec(&format!("fdtabs pub {}", self.now), &mut o);
+        let line = if r == "ERR" { format!("fdtabs pub {} X", self.now) } else { format!("fdtabs pub {}", self.now) };
+        self.ctx.op(&line, &r);
+        for (c, d) in o.fails {
+            self.ctx.oracle_fail(&c, &d);
+        }
         self.ctx.count(if r == "ok" { "publish-ok" } else { "publish-refused" });
         r
     }
